@@ -67,10 +67,16 @@ def build(verbose=False):
         d = os.path.join(WORK, "h-" + hh)
         exe = os.path.join(d, "rspharness")
         if os.path.exists(exe):
+            os.utime(d)
             return exe, ""
-        # remove stale caches
+        # remove stale caches: those not used for half an hour (a check running next to this one may still be starting its binary)
+        import time
         for old in glob.glob(os.path.join(WORK, "h-*")):
-            shutil.rmtree(old, ignore_errors=True)
+            try:
+                if time.time() - os.path.getmtime(old) > 1800:
+                    shutil.rmtree(old, ignore_errors=True)
+            except OSError:
+                pass
         os.makedirs(d)
         jobs = []
         for f in PLAIN:
